@@ -42,6 +42,11 @@ type bastionSession struct {
 	lss    []*logState
 	allowN int // number of requests the limiter will allow (-1 = all)
 	sent   int
+	// doReq, when set, carries the request to the endpoint some other way than calling the handler in-process
+	// (the end-to-end scenario: over the reverse TLS 1.3 + HTTP/2 connection); ok=false: no answer arrived
+	doReq func(body []byte) (status int, ctype string, rbody []byte, ok bool)
+	e2e   int
+	allowPlan []int // per request: 1 allowed, 0 pushed back, 2 unknown (overrides allowN)
 }
 
 func (b *bastionSession) states() string {
@@ -60,35 +65,55 @@ func (b *bastionSession) serve(body []byte, class string, expect int, expectBody
 		expect = 429
 		expectBody = ""
 	}
+	if b.allowPlan != nil && b.sent < len(b.allowPlan) {
+		allow = b.allowPlan[b.sent] // 2: the limiter may or may not let it through (timing), either answer is judged on its own
+		if allow == 2 {
+			expect, expectBody = 0, ""
+		}
+	}
 	b.sent++
 	pre := b.states()
 	req := httptest.NewRequest(http.MethodPost, "/", bytes.NewReader(body))
 	rec := httptest.NewRecorder()
 	status := 0
-	answered := withDeadline(10*time.Second, func() {
-		defer func() {
-			if r := recover(); r != nil {
-				status = 999
+	var answered bool
+	if b.doReq != nil {
+		var ct string
+		var rb []byte
+		status, ct, rb, answered = b.doReq(body)
+		if answered {
+			rec.Code = status
+			rec.Body = bytes.NewBuffer(rb)
+			if ct != "" {
+				rec.Header().Set("Content-Type", ct)
 			}
-		}()
-		b.h.ServeHTTP(rec, req)
-		status = rec.Code
-	})
+		}
+	} else {
+		answered = withDeadline(10*time.Second, func() {
+			defer func() {
+				if r := recover(); r != nil {
+					status = 999
+				}
+			}()
+			b.h.ServeHTTP(rec, req)
+			status = rec.Code
+		})
+	}
 	if !answered {
 		// the request was left unanswered (e.g. the single storage connection is pinned by an open transaction):
 		// 998 in the record; nothing more can be learnt from this witness
 		b.dead = true
 		hangCount++
-		b.t.line("H %s allow=%d body=%s states=%s class=%s expect=- expectbody=- => status=998 ctype=. rbody=. post=%s",
-			b.id, allow, hx(body), pre, class, pre)
+		b.t.line("H %s allow=%d body=%s states=%s class=%s expect=- expectbody=- e2e=%d => status=998 ctype=. rbody=. post=%s",
+			b.id, allow, hx(body), pre, class, b.e2e, pre)
 		return 998
 	}
 	post := b.states()
 	if b.dead {
 		// the request was answered but the next operation on the store never returned
 		hangCount++
-		b.t.line("H %s allow=%d body=%s states=%s class=%s expect=- expectbody=- => status=998 ctype=. rbody=. post=%s",
-			b.id, allow, hx(body), pre, class, pre)
+		b.t.line("H %s allow=%d body=%s states=%s class=%s expect=- expectbody=- e2e=%d => status=998 ctype=. rbody=. post=%s",
+			b.id, allow, hx(body), pre, class, b.e2e, pre)
 		return 998
 	}
 	rbody := rec.Body.Bytes()
@@ -116,8 +141,8 @@ func (b *bastionSession) serve(body []byte, class string, expect int, expectBody
 	if expectBody != "" {
 		eb = hx([]byte(expectBody))
 	}
-	b.t.line("H %s allow=%d body=%s states=%s class=%s expect=%s expectbody=%s => status=%d ctype=%s rbody=%s post=%s",
-		b.id, allow, hx(body), pre, class, exp, eb, status, hx([]byte(ct)), hx(rbody), post)
+	b.t.line("H %s allow=%d body=%s states=%s class=%s expect=%s expectbody=%s e2e=%d => status=%d ctype=%s rbody=%s post=%s",
+		b.id, allow, hx(body), pre, class, exp, eb, b.e2e, status, hx([]byte(ct)), hx(rbody), post)
 	return status
 }
 
@@ -166,10 +191,43 @@ func scenarioBastion(t *traceWriter, rng *rand.Rand) {
 		case 8:
 			limit, allowN = 3, 3
 		}
+		refill := si%20 == 9
+		if refill {
+			limit, allowN = 2, -1
+		}
 		bs := newBastionSession(t, rng, []string{"mem", "sql"}[si%2], w, lss, w.wk, limit, allowN)
 		n := 6 + rng.Intn(14)
 		if allowN > 0 {
 			n = 6
+		}
+		if refill {
+			// 2 requests per second, burst 2: two requests pass, six more arrive at once (pushed back unless the machine
+			// stalls), then the caller stays silent for 0.7 s — longer than one token takes to come back — and its
+			// next request is within the configured rate: it must be processed, not pushed back
+			bs.allowPlan = []int{1, 1, 2, 2, 2, 2, 2, 2, 1}
+			for i := 0; i < 200 && bs.sent < 8 && !bs.dead; i++ {
+				bs.oneRequest(w, lss[rng.Intn(len(lss))])
+			}
+			time.Sleep(700 * time.Millisecond)
+			ls := lss[0]
+			// an honest request (class ok)
+			stored := uint64(0)
+			cur := ls.cur
+			if cur == nil {
+				cur = ls.branches[0]
+			}
+			if ls.has {
+				stored = ls.curSize
+			}
+			size := stored
+			if !ls.has {
+				size = 2
+			}
+			cp := signNote(cpText(ls.l.origin, size, cur.root(size)), ls.l.key.signer)
+			if st := bs.serve(writeBody(stored, [][]byte{}, cp), "ok.afterRefill", 200, ""); st == 200 {
+				ls.has, ls.curSize, ls.cur = true, size, cur
+			}
+			n = 0
 		}
 		for i := 0; i < n && !bs.dead; i++ {
 			ls := lss[rng.Intn(len(lss))]
